@@ -168,6 +168,23 @@ class FactWalker:
                 self.bind_opaque(p, env2, prefix="cl")
             self.walk(e["body"], facts, env2, par)
             return
+        if k in ("assign", "assignop"):
+            # a local that is written after a guard no longer satisfies the guard: forget what is known about it
+            self.walk(e["b"], facts, env, par)
+            tgt = strip(e["a"])
+            while tgt.get("k") in ("field", "index"):
+                tgt = strip(tgt["x"])
+            if tgt.get("k") == "un" and tgt.get("op") == "*":
+                tgt = strip(tgt["a"])
+            if tgt.get("k") == "local":
+                self.kill(tgt, facts, env)
+            return
+        if k == "addrof" and e.get("mut"):
+            tgt = strip(e["x"])
+            while tgt.get("k") in ("field", "index"):
+                tgt = strip(tgt["x"])
+            if tgt.get("k") == "local":
+                self.kill(tgt, facts, env)
         # generic descent
         for key in ("f", "recv", "a", "b", "x", "scrut", "init", "i", "base"):
             v = e.get(key)
@@ -179,6 +196,16 @@ class FactWalker:
         if k == "struct":
             for f in e["fields"]:
                 self.walk(f["e"], facts, env, par)
+
+    def kill(self, local, facts, env):
+        """the local is (possibly) modified: give it a fresh unknown value and drop every fact that mentions the old one"""
+        import json
+        old = env.get(local["id"])
+        self._gen = getattr(self, "_gen", 0) + 1
+        env[local["id"]] = ["local", local["name"], local["id"], "modified#%d" % self._gen]
+        if old is not None:
+            key = json.dumps(old)
+            facts[:] = [f for f in facts if key not in json.dumps(f)]
 
     def lits(self, p):
         k = p["k"]
